@@ -104,6 +104,10 @@ def install(E, faults=True):
     M[("str", PATH)] = lambda ctx, v: VStr(ps(ctx, v))
     M[("getattr", PATH, "parent")] = lambda ctx, p: mkpath(ctx, path_parent(ps(ctx, p)))
     M[("getattr", PATH, "suffix")] = lambda ctx, p: VStr(path_suffix(ps(ctx, p)))
+    path_name = z3.Function("path_name", S, S)
+    M[("getattr", PATH, "name")] = lambda ctx, p: VStr(path_name(ps(ctx, p)))
+    M[(PATH, "with_name")] = lambda ctx, p, a, k: mkpath(ctx, z3.Concat(path_parent(ps(ctx, p)), SV("/"), ctx.force(a[0]).z))
+    M[(PATH, "with_suffix")] = lambda ctx, p, a, k: mkpath(ctx, z3.Concat(ps(ctx, p), ctx.force(a[0]).z)) if False else (_ for _ in ()).throw(Unsupported("with_suffix"))
 
     def p_resolve(ctx, p, args, kw):
         # ValueError: embedded NUL; RuntimeError: symlink loop; OSError
